@@ -180,30 +180,43 @@ pub fn codec(r: &mut Rng, n: usize, thorough: bool, out: &mut Out) {
 
 // ---------------------------------------------------------------- weight
 
-fn w_line(bytes: &[u8]) -> (String, String) {
+fn w_line(bytes: &[u8]) -> (String, String, u64) {
     let op = format!("w {}", hxd(bytes));
-    let res = catch_unwind(|| {
+    let mut total = 0u64;
+    let res = catch_unwind(AssertUnwindSafe(|| {
         hooks::reset_counters();
         let w = melvm::covenant_weight_from_bytes(bytes);
-        let calls = hooks::car_weight_calls();
+        let calls = hooks::weigh_pass_steps();
+        // everything the weigher did: the steps of its passes and the single-instruction look-ups
+        total = calls + hooks::car_weight_calls();
         format!("w={} work={}", w, calls)
-    })
+    }))
     .unwrap_or_else(|_| "panic".into());
-    (op, res)
+    (op, res, total)
+}
+
+/// C11: weighing costs at most a modest polynomial in the size of the covenant: every step of the weigher (pass steps
+/// and single-instruction look-ups, both counted by the hooks) — at most (bytes + 1)^2 in all, whatever the nesting.
+/// The unchanged weigher makes at most len * (distinct ends) pass steps and as many look-ups at most.
+fn emit_w(out: &mut Out, bytes: &[u8]) {
+    let (op, res, total) = w_line(bytes);
+    out.emit(&op, &res);
+    let n = bytes.len() as u64 + 1;
+    out.fact("C11", "weighing-work-quadratic-in-size", total <= n * n, &format!("weigher-steps={} covenant-bytes={}", total, bytes.len()));
 }
 
 pub fn weight(r: &mut Rng, n: usize, thorough: bool, out: &mut Out) {
     use OpCode::*;
-    out.emit2(w_line(&[]));
+    emit_w(out, &[]);
     for op in vmgen::all_ops(r) {
         if let Ok(b) = catch_unwind(|| Covenant::from_ops(&[op.clone()]).to_bytes()) {
-            out.emit2(w_line(&b));
+            emit_w(out, &b);
         }
     }
-    // stacked loops (F2): work doubles per loop; keep n small enough to run
-    for k in 0..(if thorough { 17 } else { 13 }) {
+    // stacked loops (F2, fixed): the work doubled per loop; keep n small enough for a reverted weigher to still finish
+    for k in 0..(if thorough { 24 } else { 20 }) {
         let ops: Vec<OpCode> = (0..k).map(|_| Loop(1, 1000)).collect();
-        out.emit2(w_line(&Covenant::from_ops(&ops).to_bytes()));
+        emit_w(out, &Covenant::from_ops(&ops).to_bytes());
     }
     // saturation
     let sat: Vec<Vec<OpCode>> = vec![
@@ -215,7 +228,7 @@ pub fn weight(r: &mut Rng, n: usize, thorough: bool, out: &mut Out) {
         vec![Exp(255), Exp(0)],
     ];
     for ops in sat {
-        out.emit2(w_line(&Covenant::from_ops(&ops).to_bytes()));
+        emit_w(out, &Covenant::from_ops(&ops).to_bytes());
     }
     // properly nested saturated loops (each loop's body is everything after it), with and without something after
     // the nest and inside the innermost body: every accumulation of the weigher meets values at the u128 ceiling
@@ -224,17 +237,17 @@ pub fn weight(r: &mut Rng, n: usize, thorough: bool, out: &mut Out) {
         for tail in [vec![Noop], vec![Noop, Noop], vec![Hash(65535)], vec![Noop, Add, Hash(65535), Noop]] {
             let mut ops = nest.clone();
             ops.extend(tail);
-            out.emit2(w_line(&Covenant::from_ops(&ops).to_bytes()));
+            emit_w(out, &Covenant::from_ops(&ops).to_bytes());
         }
     }
     for i in 0..n {
         let ops = if i % 3 == 0 { vmgen::loopy_program(r) } else { vmgen::mixed_program(r) };
         if let Ok(b) = catch_unwind(|| Covenant::from_ops(&ops).to_bytes()) {
-            out.emit2(w_line(&b));
+            emit_w(out, &b);
         }
         if i % 5 == 0 {
             let len = r.below(10) as usize;
-            out.emit2(w_line(&r.bytes(len)));
+            emit_w(out, &r.bytes(len));
         }
     }
 }
